@@ -379,4 +379,90 @@ theorem f64_column_exact (lo hi : B) (hv : Int) (hs : -(2 ^ 53) < hv ∧ hv < 2 
       simp only [coerceF, upperHolds]
       rw [Bool.eq_iff_iff, decide_eq_true_eq, decide_eq_true_eq]; exact h.2
 
+/-! ### merged column type = write-time type of the union (values supplied as u64) -/
+
+/-- a segment's values with the min / max its column records -/
+structure SegVals where
+  vals : List Int
+  mn : Int
+  mx : Int
+
+def SegVals.ok (s : SegVals) : Prop :=
+  s.mn ∈ s.vals ∧ s.mx ∈ s.vals ∧ (∀ v ∈ s.vals, s.mn ≤ v ∧ v ≤ s.mx) ∧ (∀ v ∈ s.vals, 0 ≤ v)
+
+def SegVals.src (s : SegVals) : Src := ⟨(colOf true s.vals).lift, s.mn, s.mx⟩
+
+theorem colOf_true_i64_iff (vals : List Int) : colOf true vals = .i64 ↔ ∀ v ∈ vals, v < I64MAX := by
+  unfold colOf
+  simp only [Bool.not_true, Bool.false_or]
+  constructor
+  · intro h
+    split at h
+    · rename_i hall
+      intro v hv
+      simpa using List.all_eq_true.mp hall v hv
+    · cases h
+  · intro h
+    have : vals.all (fun v => decide (v < I64MAX)) = true := by
+      rw [List.all_eq_true]; intro v hv; simpa using h v hv
+    simp [this]
+
+theorem mergedCol_u64_supplied (segs : List SegVals) (hok : ∀ s ∈ segs, s.ok) :
+    mergedCol (segs.map SegVals.src) = (colOf true (segs.flatMap (·.vals))).lift := by
+  have hallU : allU64 (segs.map SegVals.src) = true := by
+    unfold allU64
+    rw [List.all_eq_true]
+    intro x hx
+    obtain ⟨s, hs, rfl⟩ := List.mem_map.mp hx
+    have h := hok s hs
+    have h1 := h.2.2.2 s.mn h.1
+    have h2 := h.2.2.2 s.mx h.2.1
+    simp only [SegVals.src]
+    cases colOf true s.vals <;> simp [ColT.lift, h1, h2]
+  have hallI : allI64 (segs.map SegVals.src) = true ↔ ∀ s ∈ segs, colOf true s.vals = .i64 := by
+    unfold allI64
+    rw [List.all_eq_true]
+    constructor
+    · intro h s hs
+      have hx := h (SegVals.src s) (List.mem_map.mpr ⟨s, hs, rfl⟩)
+      simp only [SegVals.src] at hx
+      cases hc : colOf true s.vals with
+      | i64 => rfl
+      | u64 =>
+        exfalso
+        rw [hc] at hx
+        simp only [ColT.lift, Bool.and_eq_true, decide_eq_true_eq] at hx
+        have hmx := hx.2
+        have hnot : ¬ (∀ v ∈ s.vals, v < I64MAX) := by
+          intro hall
+          have := (colOf_true_i64_iff s.vals).mpr hall
+          rw [hc] at this; cases this
+        apply hnot
+        intro v hv
+        have hle : v ≤ s.mx := ((hok s hs).2.2.1 v hv).2
+        exact Int.lt_of_le_of_lt hle (of_decide_eq_true hmx)
+    · intro h x hx
+      obtain ⟨s, hs, rfl⟩ := List.mem_map.mp hx
+      simp [SegVals.src, h s hs, ColT.lift]
+  unfold mergedCol
+  by_cases hI : ∀ s ∈ segs, colOf true s.vals = .i64
+  · have hall : colOf true (segs.flatMap (·.vals)) = .i64 := by
+      rw [colOf_true_i64_iff]
+      intro v hv
+      obtain ⟨s, hs, hvs⟩ := List.mem_flatMap.mp hv
+      exact (colOf_true_i64_iff s.vals).mp (hI s hs) v hvs
+    rw [if_pos (hallI.mpr hI), hall]; rfl
+  · have hall : colOf true (segs.flatMap (·.vals)) = .u64 := by
+      cases hc : colOf true (segs.flatMap (·.vals)) with
+      | u64 => rfl
+      | i64 =>
+        exfalso
+        apply hI
+        intro s hs
+        rw [colOf_true_i64_iff]
+        intro v hv
+        exact (colOf_true_i64_iff _).mp hc v (List.mem_flatMap.mpr ⟨s, hs, hv⟩)
+    have hnI : ¬ (allI64 (segs.map SegVals.src) = true) := fun h => hI (hallI.mp h)
+    rw [if_neg hnI, if_pos hallU, hall]; rfl
+
 end TantivyModel.JsonRange
